@@ -263,6 +263,17 @@ func observe(ctx context.Context, c *Case, pi Pi) map[string]string {
 		} else {
 			out["format"] = "error: " + err.Error()
 		}
+		// format diff, the way `buf format -d` computes it
+		orig := bufmodule.ModuleReadBucketToStorageReadBucket(bufmodule.ModuleSetToModuleReadBucketWithOnlyProtoFiles(ms))
+		if fb, err := bufformat.FormatBucket(ctx, orig); err == nil {
+			var b bytes.Buffer
+			changed, err := storage.DiffWithFilenames(ctx, &b, orig, fb, storage.DiffWithExternalPaths(), storage.DiffWithSuppressTimestamps())
+			if err != nil {
+				out["format-diff"] = "error: " + err.Error()
+			} else {
+				out["format-diff"] = strings.Join(changed, ",") + "\n" + b.String()
+			}
+		}
 		// type filter (the CHANGELOG records nondeterministic import ordering with --type)
 		if len(c.Types) > 0 {
 			fimg, err := bufimageutil.FilterImage(img, bufimageutil.WithIncludeTypes(permuted(c.Types, pi.ArgSeed)...))
